@@ -10,13 +10,20 @@ BUILDS = [(("drv_c09", ["drv_c09.cpp"]), {})]
 
 def run(chk, replay=None):
     thorough = chk.tier == "thorough"
-    chk.cov["checker_cmd"] = "tlc MC_Select; tlc Trace_C09 (TRACE=out/C09/trace.ndjson)"
-    chk.cov["trusted_base"] = ["TLC", "script_engine turns j into the canonical number j/2^24 exactly (libstdc++ generate_canonical)"]
+    chk.cov["checker_cmd"] = "tlc MC_Select; apalache-mc check --length=0 --inv=OwnerInv Select_apa.tla; tlc Trace_C09 (TRACE=out/C09/trace.ndjson)"
+    chk.cov["trusted_base"] = ["TLC", "Apalache 0.58 + Z3 (ownership laws for unbounded weights)", "script_engine turns j into the canonical number j/2^24 exactly (libstdc++ generate_canonical)"]
     chk.cov["rule"] = ("one case per (path, numeric type, scaling, weight vector) with ~30 canonical numbers each: 0, 1-2^-24, every "
                        "cumulative boundary and its lattice neighbours, coarse and random lattice points; non-trivial = weight vector "
                        "with at least one zero entry or a non-dyadic sum")
     chk.model("MC_Select", "MC_Select" if thorough else "MC_Select_quick", workers=8, heap="8g",
               what="MC_Select: owner unique/enabled, P(i)=w_i, as-coded pick is the owner, lower_bound counterexample")
+    # the ownership laws for five channels with any natural weights and any position (Apalache / Z3); lower_bound rejected
+    import apacommon
+    done = apacommon.discharge(chk, "Select_apa", [
+        (["--length=0", "--inv=OwnerInv"], "ok", "exactly one owner, enabled, found by upper_bound - for unbounded weights and positions"),
+        (["--length=0", "--inv=LowerInv"], "error", "lower_bound selects a disabled channel")])
+    chk.cov["obligations"] = len(done)
+    chk.cov["discharged"] = len(done)
     exe = vt.build(*BUILDS[0][0])
     trace = replay or chk.path("trace.ndjson")
     if not replay:
